@@ -1,5 +1,6 @@
 mod actors;
 mod algebra;
+mod explorer;
 mod graphs;
 mod hooks;
 mod market;
@@ -24,6 +25,7 @@ fn main() {
             arg(&args, "--m").and_then(|s| s.parse().ok()).unwrap_or(2),
             arg(&args, "--seed").and_then(|s| s.parse().ok()).unwrap_or(1),
         ),
+        "explorer" => explorer::main_explorer(&inp, &out),
         "matches" => graphs::main_matches(&out),
         "market" => market::main_market(&inp, &out),
         "testers" => testers::main_testers(&inp, &out),
